@@ -87,6 +87,13 @@ def build_program(nodes, edges):
             items.append({"kind": "enum", "name": n["name"], "attrs": [render.tagged()] + at, "variants": vs})
         elif k == "unit_enum":
             items.append({"kind": "enum", "name": n["name"], "attrs": at, "variants": [{"name": "A"}, {"name": "B"}]})
+        elif k == "shadow_alias":
+            # a generic alias whose type PARAMETER is named like another item of the program (valid Rust: the parameter shadows the item):
+            # it does not refer to that item - and the items walked after it still do (what an ordering walk remembers about a name while
+            # it is inside one item must not outlive that item)
+            items.append({"kind": "alias", "name": n["name"], "attrs": at, "generics": [n["param"]], "ty": f"Vec<{n['param']}>"})
+        elif k == "shadow_struct":
+            items.append({"kind": "struct", "name": n["name"], "attrs": at, "generics": [n["param"]], "fields": [{"name": "v", "ty": f"Vec<{n['param']}>"}]})
         elif k == "alias":
             t = wrap(out[0]["wrapper"], nodes[out[0]["dst"]]["name"]) if out else "String"
             items.append({"kind": "alias", "name": n["name"], "attrs": at, "ty": t})
@@ -358,6 +365,12 @@ def run(chk):
                                  {"src": 0, "dst": second, "carrier": c["carrier"], "wrapper": c["w2"], "ovr": "none", "same_variant": c["carrier"] == "vfield"}], None))
     events, emeta = run_programs(chk, programs)
     validate(chk, events, emeta, "two-references")
+    # the same programs next to generic items whose PARAMETER is named like the referenced item Bbb2: an alias that is walked before every
+    # other item (Aaa0) and a struct that is walked between them (Aab1x)
+    shadowed = [(nodes + [{"name": "Aaa0", "kind": "shadow_alias", "param": "Bbb2", "renamed": False},
+                          {"name": "Aaa0s", "kind": "shadow_struct", "param": "Bbb2", "renamed": False}], edges, m) for nodes, edges, m in programs]
+    events, emeta = run_programs(chk, shadowed)
+    validate(chk, events, emeta, "two-references[next to parameters named like an item]")
     for mode in ("single", "folder"):          # ... and through the real binary, both output modes
         events, emeta = run_programs_cli(chk, programs[::2] if not thorough else programs, mode)
         validate(chk, events, emeta, "two-references[cli-" + mode + "]")
